@@ -2,6 +2,7 @@ package main
 
 import (
 	"fmt"
+	"go/ast"
 	"go/token"
 	"go/types"
 	"sort"
@@ -293,6 +294,9 @@ func (f *Frame) setEdge(from, to *ssa.BasicBlock, cond string, st *State) {
 func (f *Frame) asAddr(p Val, elem types.Type, st *State, reach string, pos token.Pos) *Addr {
 	g := f.g
 	if p.Ptr != nil {
+		if p.NilFlag != "" {
+			f.nopanic("nil_deref", reach, not(p.NilFlag), pos)
+		}
 		return p.Ptr
 	}
 	if p.Term == "" {
@@ -371,7 +375,13 @@ func (f *Frame) binop(x *ssa.BinOp, st *State, reach string) {
 					res = "true"
 				}
 			} else if a.Ptr != nil && bt == "0" || b.Ptr != nil && at == "0" {
-				res = "false" // a static pointer is never nil
+				res = "false" // a static pointer is never nil, unless it carries a nil flag
+				if a.Ptr != nil && a.NilFlag != "" {
+					res = a.NilFlag
+				}
+				if b.Ptr != nil && b.NilFlag != "" {
+					res = b.NilFlag
+				}
 			} else {
 				g.fail("%s: comparison of a static pointer with a term", f.fn.Name())
 			}
@@ -552,7 +562,8 @@ func (f *Frame) indexAddr(x *ssa.IndexAddr, st *State, reach string) {
 		}
 		h := g.sorts.heapFor(s)
 		f.nopanic("index_in_range", reach, fmt.Sprintf("(and (<= 0 %s) (< %s (len_%s %s)))", idx.Term, idx.Term, s, base.Term), x.Pos())
-		f.vals[x] = Val{Ptr: &Addr{Heap: h, Loc: fmt.Sprintf("(arr_%s %s)", s, base.Term), Idx: g.def(f.name(x)+"_i", "Int", fmt.Sprintf("(+ (off_%s %s) %s)", s, base.Term, idx.Term))}, GoT: x.Type()}
+		f.vals[x] = Val{Ptr: &Addr{Heap: h, Loc: fmt.Sprintf("(arr_%s %s)", s, base.Term), Idx: g.def(f.name(x)+"_i", "Int", fmt.Sprintf("(+ (off_%s %s) %s)", s, base.Term, idx.Term)),
+			SliceSort: s, SliceTerm: base.Term, RawIdx: idx.Term}, GoT: x.Type()}
 	default:
 		g.fail("%s: IndexAddr on %s", f.fn.Name(), x.X.Type())
 	}
@@ -713,6 +724,7 @@ func (f *Frame) rangeInit(x *ssa.Range, st *State, reach string) {
 	g.assume(fmt.Sprintf("(forall ((i Int) (j Int)) (! (=> (and (<= 0 i) (< i j) (< j %s)) (not (= (%s i) (%s j)))) :pattern ((%s i) (%s j))))", cnt, en, en, en, en))
 	inv := g.uf(f.name(x)+"_pos", []string{kv[0]}, "Int")
 	g.assume(fmt.Sprintf("(forall ((k %s)) (! (=> (select (mhas_%s %s) k) (and (<= 0 (%s k)) (< (%s k) %s) (= (%s (%s k)) k))) :pattern ((%s k))))", kv[0], mv, snap, inv, inv, cnt, en, inv, inv))
+	st.cells[f.iterCell(x)] = Val{Sort: "Int", Term: "0"} // no key handed out yet
 	f.vals[x] = Val{Sort: "Iter", Term: en, Tuple: []Val{{Sort: "Int", Term: cnt}, {Sort: mv, Term: snap}}, GoT: x.Type()}
 }
 
@@ -753,6 +765,8 @@ func (f *Frame) iterCell(it ssa.Value) *Cell {
 // loops
 
 type loopInfo struct {
+	preEntry map[string]string
+	allocAtEntry string
 	hdrState *State
 	phiVals  map[*ssa.Phi]Val
 	havocked map[string]bool
@@ -799,6 +813,61 @@ func (f *Frame) loopEnv(h *ssa.BasicBlock, st *State, phiOverride map[*ssa.Phi]V
 				} else if v, ok := f.vals[x]; ok {
 					if _, taken := env.vars[name]; !taken || b == h {
 						env.vars[name] = v
+					}
+				}
+			}
+		}
+	}
+	// single-assignment locals defined in blocks that dominate the header (source names from debug refs)
+	for _, b := range f.fn.Blocks {
+		if !b.Dominates(h) || b == h {
+			continue
+		}
+		for _, ins := range b.Instrs {
+			if dr, ok := ins.(*ssa.DebugRef); ok && !dr.IsAddr {
+				if id, ok := dr.Expr.(*ast.Ident); ok {
+					if v, ok := f.vals[dr.X]; ok {
+						if _, taken := env.vars[id.Name]; !taken {
+							if _, isCell := env.cellVars[id.Name]; !isCell {
+								env.vars[id.Name] = v
+							}
+						}
+					}
+				}
+			}
+		}
+	}
+	// map range loops: `iterpos` is the number of keys handed out so far, rangekey(j) the j-th key of the (arbitrary) enumeration
+	for b := range f.loopBlk[h] {
+		for _, bi := range b.Instrs {
+			if nx, ok := bi.(*ssa.Next); ok {
+				if it, ok := f.vals[nx.Iter]; ok && it.Sort == "Iter" {
+					c := f.iterCell(nx.Iter)
+					env.cellVars["iterpos"] = c
+					env.vars["rangekeys"] = Val{Sort: "Enum", Term: it.Term}
+					env.vars["rangecount"] = it.Tuple[0]
+				}
+			}
+		}
+	}
+	// `ranged`: the slice a range-over-slice loop with this header iterates over (the value indexed by rangeindex+1)
+	for _, ins := range h.Instrs {
+		phi, ok := ins.(*ssa.Phi)
+		if !ok {
+			break
+		}
+		if strings.TrimPrefix(phi.Comment, "#") != "rangeindex" {
+			continue
+		}
+		for b := range f.loopBlk[h] {
+			for _, bi := range b.Instrs {
+				ia, ok := bi.(*ssa.IndexAddr)
+				if !ok {
+					continue
+				}
+				if bo, ok := ia.Index.(*ssa.BinOp); ok && bo.X == ssa.Value(phi) {
+					if v, ok := f.vals[ia.X]; ok {
+						env.vars["ranged"] = v
 					}
 				}
 			}
@@ -886,6 +955,14 @@ func (f *Frame) loopHeader(h *ssa.BasicBlock, st *State, reach string) (*State, 
 	for _, m := range spec.Modifies {
 		f.havocNamed(m, hs, li, env)
 	}
+	// `preserves H.x`: objects of heap x that existed when the loop was entered keep their contents (the loop only
+	// allocates and fills fresh ones); checked like an invariant
+	allocAtEntry := g.heapGet(st, "$alloc")
+	for _, pz := range spec.Preserves {
+		name := strings.TrimPrefix(pz, "H.")
+		li.havocked[name] = true
+		g.heapGet(st, name)
+	}
 	var hnames []string
 	for n := range li.havocked {
 		hnames = append(hnames, n)
@@ -914,6 +991,14 @@ func (f *Frame) loopHeader(h *ssa.BasicBlock, st *State, reach string) (*State, 
 	na := g.heapHavoc(hs, "$alloc")
 	g.assume(fmt.Sprintf("(>= %s %s)", na, oldAlloc))
 	li.hdrState = hs.clone()
+	li.preEntry = map[string]string{}
+	for _, pz := range spec.Preserves {
+		name := strings.TrimPrefix(pz, "H.")
+		before := g.heapGet(st, name)
+		li.preEntry[name] = before
+		li.allocAtEntry = allocAtEntry
+		g.assume(implies(reach, fmt.Sprintf("(forall ((l!q Int)) (=> (<= l!q %s) (= (select %s l!q) (select %s l!q))))", allocAtEntry, hs.heaps[name], before)))
+	}
 	// 4. assume invariant
 	env2 := f.loopEnv(h, hs, li.phiVals)
 	for _, inv := range spec.Invariants {
@@ -1049,6 +1134,10 @@ func (f *Frame) loopBackEdge(from, h *ssa.BasicBlock, cond string, st *State) {
 		t := env.trBool(inv.Expr)
 		g.oblige("invariant", fmt.Sprintf("loop%d_preserved:%s", f.loopOrd[h], inv.Label), f.clauseProps(inv), f.fn, cond, t, inv.Src, from.Instrs[len(from.Instrs)-1].Pos())
 	}
+	for name, before := range li.preEntry {
+		g.oblige("invariant", fmt.Sprintf("loop%d_preserved:preexisting_%s_untouched", f.loopOrd[h], name), f.props(), f.fn, cond,
+			fmt.Sprintf("(forall ((l!q Int)) (=> (<= l!q %s) (= (select %s l!q) (select %s l!q))))", li.allocAtEntry, g.heapGet(st, name), before), "preserves H."+name, token.NoPos)
+	}
 	// frame: everything not havocked must be unchanged
 	var names []string
 	for n := range st.heaps {
@@ -1135,6 +1224,18 @@ func (f *Frame) callEffects(c *ssa.CallCommon, li *loopInfo, depth int, argMap m
 	var actuals []ssa.Value
 	var callee *ssa.Function
 	if c.IsInvoke() {
+		full := c.Method.FullName()
+		if strings.HasPrefix(full, "(github.com/cosmos/cosmos-sdk/codec.BinaryCodec).") || strings.HasPrefix(full, "(github.com/cosmos/cosmos-sdk/codec.Codec).") {
+			// codec model: decoding writes the target object (and allocates fresh slices), encoding writes nothing
+			if strings.Contains(c.Method.Name(), "Unmarshal") && len(c.Args) >= 2 {
+				if mi, ok := c.Args[1].(*ssa.MakeInterface); ok {
+					f.havocTarget(resolve(mi.X), nil, li)
+				}
+			}
+			return
+		}
+	}
+	if c.IsInvoke() {
 		ct, _ = g.lookupInvokeContract(c)
 		names = []string{"recv"}
 		actuals = append(actuals, c.Value)
@@ -1183,8 +1284,31 @@ func (f *Frame) callEffects(c *ssa.CallCommon, li *loopInfo, depth int, argMap m
 				inner := strings.TrimPrefix(m, "*")
 				inner = strings.TrimSuffix(strings.TrimPrefix(strings.TrimPrefix(inner, "map("), "arr("), ")")
 				inner = strings.TrimPrefix(inner, "*")
+				fieldPath := ""
 				if i := strings.IndexAny(inner, ".["); i >= 0 {
+					fieldPath = inner[i:]
 					inner = inner[:i]
+				}
+				// type of the designated object: follow .Field selectors from the parameter's type
+				walk := func(t types.Type) types.Type {
+					for _, fld := range strings.Split(strings.Trim(fieldPath, "."), ".") {
+						if fld == "" || strings.ContainsAny(fld, "[]") {
+							break
+						}
+						if pt, ok := t.Underlying().(*types.Pointer); ok {
+							t = pt.Elem()
+						}
+						st, ok := t.Underlying().(*types.Struct)
+						if !ok {
+							break
+						}
+						for k := 0; k < st.NumFields(); k++ {
+							if st.Field(k).Name() == fld {
+								t = st.Field(k).Type()
+							}
+						}
+					}
+					return t
 				}
 				found := false
 				for i, n := range names {
@@ -1193,7 +1317,7 @@ func (f *Frame) callEffects(c *ssa.CallCommon, li *loopInfo, depth int, argMap m
 						a := resolve(actuals[i])
 						switch {
 						case strings.HasPrefix(m, "map("):
-							t := a.Type()
+							t := walk(a.Type())
 							if pt, ok := t.Underlying().(*types.Pointer); ok {
 								t = pt.Elem()
 							}
@@ -1202,7 +1326,7 @@ func (f *Frame) callEffects(c *ssa.CallCommon, li *loopInfo, depth int, argMap m
 								li.havocked[hn] = true
 							}
 						case strings.HasPrefix(m, "arr("):
-							t := a.Type()
+							t := walk(a.Type())
 							if pt, ok := t.Underlying().(*types.Pointer); ok {
 								t = pt.Elem()
 							}
@@ -1266,7 +1390,8 @@ func (f *Frame) callEffects(c *ssa.CallCommon, li *loopInfo, depth int, argMap m
 	// unmodelled: pure externals modify nothing, others everything
 	if callee != nil {
 		switch callee.String() {
-		case "fmt.Sprintf", "fmt.Errorf", "fmt.Sprint", "strings.Join", "github.com/cosmos/cosmos-sdk/types/errors.Wrapf", "github.com/cosmos/cosmos-sdk/types/errors.Wrap":
+		case "fmt.Sprintf", "fmt.Errorf", "fmt.Sprint", "strings.Join", "github.com/cosmos/cosmos-sdk/types/errors.Wrapf", "github.com/cosmos/cosmos-sdk/types/errors.Wrap",
+			"github.com/cosmos/cosmos-sdk/types.NewCoins", "github.com/cosmos/cosmos-sdk/types.MustNewDecFromStr", "crypto/sha256.New", "io.WriteString", "(github.com/cosmos/cosmos-sdk/types.Coins).Add":
 			return
 		}
 	}
